@@ -46,6 +46,8 @@ type Ledger struct {
 	start       time.Time
 	only        string
 	Extra       map[string]interface{}
+	floorsApplied bool
+	claimed     map[string]bool // function keys that rules of this run rely on by role (see variant.go)
 }
 
 func NewLedger(prop, tier string) *Ledger {
@@ -70,6 +72,15 @@ func (l *Ledger) Note(format string, a ...interface{}) {
 }
 
 func (l *Ledger) Count(name string, n int) { l.Counters[name] += n }
+
+// Claim records that a rule identified fn by its role (notifier, readiness predicate, wake-up routine ...) and reads
+// it as a unit: the first fallback variant does not inline it.
+func (l *Ledger) Claim(key string) {
+	if l.claimed == nil {
+		l.claimed = map[string]bool{}
+	}
+	l.claimed[key] = true
+}
 
 // Infra records that an anchor of a rule no longer resolves or a rule matched fewer constructs than its floor
 // (vacuity). The code no longer has a shape the rule understands: reported as an undecided obligation
@@ -196,19 +207,7 @@ func (l *Ledger) Finish(o finishOpts) int {
 	if err != nil {
 		l.Fatal("known_findings.json unreadable: %v", err)
 	}
-	// floors (vacuity guard) — not applied when re-deciding a single obligation
-	if l.only == "" {
-		var rules []string
-		for r := range o.floors {
-			rules = append(rules, r)
-		}
-		sort.Strings(rules)
-		for _, r := range rules {
-			if n := l.CountRule(r); n < o.floors[r] {
-				l.Infra("vacuity guard: rule %s/%s produced %d obligations, floor is %d (the anchors of this rule no longer match the code)", l.Prop, r, n, o.floors[r])
-			}
-		}
-	}
+	l.applyFloors(o.floors)
 
 	sort.SliceStable(l.Obls, func(i, j int) bool { return l.Obls[i].Key < l.Obls[j].Key })
 	l.RuleText["anchor"] = "every anchor of the property's rules resolves and every rule matches at least the number of constructs confirmed by hand (vacuity guard)"
@@ -319,6 +318,46 @@ func (l *Ledger) Finish(o finishOpts) int {
 		return 1
 	}
 	return 0
+}
+
+// applyFloors adds the vacuity-guard obligations (once); not applied when re-deciding a single obligation.
+func (l *Ledger) applyFloors(floors map[string]int) {
+	if l.only != "" || l.floorsApplied {
+		return
+	}
+	l.floorsApplied = true
+	var rules []string
+	for r := range floors {
+		rules = append(rules, r)
+	}
+	sort.Strings(rules)
+	for _, r := range rules {
+		if n := l.CountRule(r); n < floors[r] {
+			l.Infra("vacuity guard: rule %s/%s produced %d obligations, floor is %d (the anchors of this rule no longer match the code)", l.Prop, r, n, floors[r])
+		}
+	}
+}
+
+// Unlisted returns the obligations that are not discharged and not listed as known findings, after the vacuity guard.
+func (l *Ledger) Unlisted(verifDir string, floors map[string]int) []*Obligation {
+	l.applyFloors(floors)
+	known, _ := loadKnown(filepath.Join(verifDir, "known_findings.json"))
+	var out []*Obligation
+	for _, ob := range l.Obls {
+		if ob.Verdict == Discharged || (l.only != "" && ob.Key != l.only) {
+			continue
+		}
+		listed := false
+		for _, k := range known {
+			if k.Property == l.Prop && k.Key == ob.Key && k.Status == "known" {
+				listed = true
+			}
+		}
+		if !listed {
+			out = append(out, ob)
+		}
+	}
+	return out
 }
 
 func firstLine(s string) string {
